@@ -235,6 +235,18 @@ func (P *Program) VerifyFunc(fn *ssa.Function, fc *FuncContract) *FuncResult {
 		for _, u := range fc.Uses {
 			s.useAxiom(u)
 		}
+		// witnesses: entry-state terms evaluated in the model of a failed obligation
+		var witNames, witTerms []string
+		for _, w := range fc.Witness {
+			v := s.eval(env, w.E)
+			witNames = append(witNames, w.Name)
+			// always a named definition (define() returns short terms unchanged)
+			s.nfresh++
+			n := q("wit:" + w.Name + "@" + strconv.Itoa(s.nfresh))
+			s.emit(fmt.Sprintf("(define-fun %s () %s %s)", n, v.S, v.T))
+			witTerms = append(witTerms, n)
+		}
+		_, _ = witNames, witTerms
 		var reqs []string
 		for _, r := range fc.Requires {
 			t := s.evalBool(env, r.E)
@@ -300,6 +312,27 @@ func (P *Program) VerifyFunc(fn *ssa.Function, fc *FuncContract) *FuncResult {
 		o.lines = s.lines[:o.Prefix]
 	}
 	res.Obls = s.Obls
+	// attach the witnesses (their definitions precede every obligation of the function)
+	{
+		var names, terms []string
+		for _, l := range s.lines {
+			_ = l
+		}
+		for _, w := range fc.Witness {
+			names = append(names, w.Name)
+		}
+		for _, l := range s.lines {
+			if strings.HasPrefix(l, "(define-fun |wit:") {
+				t := l[len("(define-fun "):]
+				terms = append(terms, t[:strings.Index(t[1:], "|")+2])
+			}
+		}
+		for _, o := range s.Obls {
+			if len(terms) == len(names) && !o.Cover {
+				o.WitNames, o.WitTerms = names, terms
+			}
+		}
+	}
 	return res
 }
 
@@ -364,5 +397,8 @@ func (o *Obligation) Query() string {
 		sb.WriteString("(assert (not " + o.Goal + "))\n")
 	}
 	sb.WriteString("(check-sat)\n")
+	if len(o.WitTerms) > 0 && !o.Cover {
+		sb.WriteString("(get-value (" + strings.Join(o.WitTerms, " ") + "))\n")
+	}
 	return sb.String()
 }
